@@ -538,7 +538,15 @@ Verdict run_sched_case(const Case &c, SchedProp which)
       if (!repo_frame)
         hit = false;
       else if (which == SP_C14)
-        hit = is_race && heap && main_party && worker_party; // I/O thread and a worker on the same buffer / control block without a hand-over
+      {
+        // I/O thread and a worker on the same buffer / control block without a hand-over in between; or two WORKERS
+        // racing inside the buffer group's own code (two workers on one slot: "every chunk is given to exactly one worker")
+        int workers = 0;
+        for (size_t p = rep.find(" by thread T"); p != std::string::npos; p = rep.find(" by thread T", p + 1))
+          workers++;
+        bool group_code = rep.find("buffergroup::") != std::string::npos || rep.find("bufferctrl::") != std::string::npos || rep.find("iobuffer::") != std::string::npos;
+        hit = is_race && heap && worker_party && (main_party || (workers >= 2 && group_code));
+      }
       else if (which == SP_C03)
         hit = is_race && worker_party && (heap || in_transform || !symbolized); // chunk data or the cipher transformation itself depends on the schedule
       else
